@@ -130,7 +130,7 @@ func c12Exec(run *simkit.Run) {
 	}
 
 	for i, op := range c.Script {
-		if run.Failed() {
+		if run.Stop() {
 			break
 		}
 		run.Step = i
